@@ -25,6 +25,7 @@ type Obs struct {
 	Notes []string // anything else (handler calls...), order-insensitive content is sorted by the scenario
 	state []func() uint64
 	late  func() // runs in Check, after all threads have finished
+	Extra interface{}
 }
 
 func (o *Obs) logf(format string, a ...interface{}) { o.Log = append(o.Log, fmt.Sprintf(format, a...)) }
@@ -67,6 +68,7 @@ type explorer struct {
 	// state-key pruning: key -> fewest preemptions with which the state has been reached
 	visited map[uint64]int
 	pruned  int64
+	noShard bool // explore every level-1 subtree here (the caller shards on something else)
 }
 
 var debugExplore = os.Getenv("VERIF_DEBUG") != ""
@@ -254,7 +256,7 @@ func (e *explorer) explore(prefix []int, level int, parent *verifsched.Execution
 			if level == 0 {
 				idx := e.child
 				e.child++
-				if !e.c.Mine(idx) {
+				if !e.noShard && !e.c.Mine(idx) {
 					continue
 				}
 			}
@@ -479,6 +481,24 @@ func exploreBoundsFirst(c *ev.Ctx, scs []*Scenario, target func(*Scenario) int) 
 			c.Sample(map[string]interface{}{"scenario": sc.Name, "bound_completed": r.done, "max_choice_points": r.st.MaxPoints, "threads": r.st.MaxThreads, "executions_at_that_bound_in_this_shard": r.st.Executions})
 		}
 	}
+}
+
+// exploreLocal explores one scenario completely in this worker (no sharding of its subtrees) at
+// exactly the given bound; it returns the number of executions.
+func exploreLocal(c *ev.Ctx, sc *Scenario, bound int) int64 {
+	st := exploreStats{}
+	e := &explorer{c: c, sc: sc, bound: bound, st: &st, failed: map[string]bool{}, dl: c.Deadline, noShard: true}
+	if !noPrune {
+		e.visited = map[uint64]int{}
+	}
+	e.explore(nil, 0, nil)
+	c.Add("schedule_executions", st.Executions)
+	c.Add("schedule_transitions", st.Transitions)
+	c.Add("schedule_states", int64(len(e.visited)))
+	if st.CapHit {
+		c.Flag("exhaustive", false)
+	}
+	return st.Executions
 }
 
 // boundsCompleted turns the merged "negbound_" maxima into {scenario: bound completed by every shard}.
